@@ -35,6 +35,9 @@ def check_program(spec):
     try:
         cp = prog.Compiled(spec, text, env)
     except cparse.CSyntaxError as e:
+        if getattr(spec, "invalid_c", False):
+            res.update(status="accepted-not-c", detail=str(e)[:200])
+            return res
         raise core.HarnessError("reference parser rejects generated program %r: %s" % (spec.text, e))
     if _JOB.get("static", True):
         st = cp.static_errors()
